@@ -11,9 +11,9 @@ git -C $WT diff -- src > $OUT/patch.diff
 [ -s $OUT/patch.diff ] || cp $WT/patch.diff $OUT/patch.diff
 cp $WT/demo.py $OUT/demo.py; cp $WT/meta.json $OUT/meta_agent.json 2>/dev/null
 # demo against the CURRENT /repo tree (unchanged) and against /repo + patch in a scratch copy
-S=$(mktemp -d /tmp/seedeval-XXXXXX); mkdir -p $S/repo; cp -r /repo/src $S/repo/src; cp -r /repo/tests $S/repo/tests 2>/dev/null
+S=$(mktemp -d /tmp/seedeval-XXXXXX); git -C /repo worktree add -q --detach $S/repo HEAD >> $LOG 2>&1
 ( cd /tmp && PYTHONPATH=/repo/src timeout 900 /venv/bin/python -W ignore $OUT/demo.py >> $LOG 2>&1 ); D0=$?
-( cd $S/repo && patch -p1 -s < $OUT/patch.diff >> $LOG 2>&1 ) || { echo "PATCH-FAILED" | tee -a $LOG; rm -rf $S; exit 3; }
+( cd $S/repo && git apply $OUT/patch.diff >> $LOG 2>&1 ) || { echo "PATCH-FAILED" | tee -a $LOG; git -C /repo worktree remove --force $S/repo; rm -rf $S; exit 3; }
 ( cd /tmp && PYTHONPATH=$S/repo/src timeout 900 /venv/bin/python -W ignore $OUT/demo.py >> $LOG 2>&1 ); D1=$?
 ( cd $S/repo && PYTHONPATH=$S/repo/src timeout 1800 /venv/bin/python -m pytest -q -p no:cacheprovider tests/unit --timeout=900 2>&1 | tail -3 >> $LOG ); 
 TESTS=$(grep -E "passed|failed" $LOG | tail -1)
@@ -21,7 +21,7 @@ TESTS=$(grep -E "passed|failed" $LOG | tail -1)
 # `git -C /repo apply` + ./check + `git -C /repo checkout -- .` gives the same result
 VO=$(mktemp -d /tmp/seedout-XXXXXX)
 ( cd /verif && DARSIA_REPO=$S/repo VERIF_OUT=$VO ./check $PID --tier quick > $OUT/check_output.txt 2>&1 ); RC=$?
-rm -rf $VO $S
+git -C /repo worktree remove --force $S/repo >> $LOG 2>&1; rm -rf $VO $S
 echo "demo_unchanged_exit=$D0 demo_changed_exit=$D1 tests='$TESTS' check_exit=$RC" | tee -a $LOG
 python3 - <<PY
 import json,os
